@@ -3,7 +3,7 @@
 # 1. confirms in a scratch worktree: patch applies, builds, the 39 tests pass, demo passes on the unmodified build and fails on the mutated one
 # 2. applies the patch to /repo, runs the named checks (quick), and undoes it.
 set -u
-D=$1; shift
+D=$(cd "$1" && pwd); shift
 W=/var/tmp/mutwt
 HEAD=$(git -C /repo rev-parse --short HEAD)
 ORIG=/var/tmp/mutorig-$HEAD
